@@ -2,7 +2,7 @@
 from . import common as C
 from .framework import Tie
 from . import sysgen
-from .sysprog import gen_program
+from .sysprog import gen_program, gen_placement
 
 PROFILES = {
     'general': {},
@@ -43,3 +43,38 @@ def sys_tie(profile='general', n_quick=250, n_thorough=4000, corpus=None, name=N
                gen=make_gen(profile, n_quick, n_thorough), impl=sysgen.impl_assemble, case_term=sysgen.case_term,
                obs_term=sysgen.obs_term, nontrivial=nontrivial, classify=classify, corpus=corpus or (lambda: []),
                shard=60, timeout=60)
+
+
+def cli_gen(profile, n_quick, n_thorough):
+    def gen(rng, tier):
+        n = n_quick if tier == 'quick' else n_thorough
+        out = []
+        for _ in range(n):
+            c = gen_program(rng, PROFILES[profile], tier)
+            # command-line edge values of the window options
+            r = rng.random()
+            if r < 0.35:
+                c['opts']['end'] = rng.choice([0, 0, 1, 2, c['cfg']['origin'], c['cfg']['origin'] + 1])
+            elif r < 0.5:
+                c['opts']['start'] = rng.choice([0, 1, c['cfg']['origin']])
+                c['explicit_start'] = True
+            out.append(c)
+        return out
+    return gen
+
+
+def cli_tie(profile='C03', n_quick=80, n_thorough=1200):
+    """same programs through the real command line; the model side ignores listing rows"""
+    return Tie(name=f'cli_{profile}', imports=['Base', 'Program'],
+               run_def='fun c => match run_prog c with Some (img, _) => Some (img, ([] : list (Z * list Z))) | None => None end',
+               eqb='obs_prog_eqb', gen=cli_gen(profile, n_quick, n_thorough), impl=sysgen.impl_cli,
+               case_term=sysgen.case_term, obs_term=sysgen.obs_term_image_only, nontrivial=nontrivial,
+               classify=lambda c: 'end=%s' % ('none' if c['opts']['end'] is None else ('0' if c['opts']['end'] == 0 else 'n')),
+               shard=60, timeout=90)
+
+
+def placement_tie(n_quick=500, n_thorough=10000):
+    return Tie(name='placement', imports=['Base', 'Program'], run_def='run_prog', eqb='obs_prog_eqb',
+               gen=lambda rng, tier: [gen_placement(rng, tier) for _ in range(n_quick if tier == 'quick' else n_thorough)],
+               impl=sysgen.impl_assemble, case_term=sysgen.case_term, obs_term=sysgen.obs_term,
+               nontrivial=lambda c: True, classify=lambda c: 'files%d' % len(c['files']), shard=100, timeout=60)
